@@ -381,8 +381,16 @@ fn count_syntax_chars(text: &str) -> usize {
 /// variable, a command or a file name must never act as a pipe, background
 /// marker or redirection.
 fn set_expanded_token(token: &mut types::Token, text: &str) {
-    if token.0.is_empty() && count_syntax_chars(text) > count_syntax_chars(&token.1) {
-        token.0 = String::from("\"");
+    if token.0.is_empty() {
+        // operators spelled inside `$(...)` or backquotes belong to the
+        // inner command, they are not part of this word.
+        let written = match Regex::new(r"\$\(.*\)|`[^`]*`") {
+            Ok(re) => re.replace_all(&token.1, "").to_string(),
+            Err(_) => token.1.clone(),
+        };
+        if count_syntax_chars(text) > count_syntax_chars(&written) {
+            token.0 = String::from("\"");
+        }
     }
     token.1 = text.to_string();
 }
